@@ -723,6 +723,29 @@ func recursiveSelectTest(p *pkg) string {
 	return out
 }
 
+// the function Builder.Build resolves the requested targets with
+func targetResolver(p *pkg) string {
+	fd := p.fn("Builder", "Build")
+	if fd == nil {
+		return "missing"
+	}
+	out := "unknown"
+	ast.Inspect(fd.Body, func(n ast.Node) bool {
+		rs, ok := n.(*ast.RangeStmt)
+		if !ok || p.src(rs.X) != "rules" {
+			return true
+		}
+		ast.Inspect(rs.Body, func(m ast.Node) bool {
+			if call, ok := m.(*ast.CallExpr); ok && len(call.Args) == 2 && p.src(call.Args[0]) == "w" {
+				out = p.src(call.Fun)
+			}
+			return true
+		})
+		return false
+	})
+	return out
+}
+
 func genCaco3Paths(repo string, fs facts) (string, error) {
 	p, err := loadPkg(repo, "caco3")
 	if err != nil {
@@ -772,6 +795,8 @@ func genCaco3Paths(repo string, fs facts) (string, error) {
 	fmt.Fprintf(&b, "def includeShape : String := %s\n\n", leanStr(inclShape))
 	b.WriteString("/-- newFileSet: the condition under which a select is a recursive listing instead of a glob -/\n")
 	fmt.Fprintf(&b, "def recursiveSelectTest : String := %s\n\n", leanStr(recursiveSelectTest(p)))
+	b.WriteString("/-- Builder.Build: the function that resolves the requested targets against the work dir -/\n")
+	fmt.Fprintf(&b, "def targetResolver : String := %s\n\n", leanStr(targetResolver(p)))
 	b.WriteString("/-- every call of env.src / env.out / env.prepareOut: file, function, callee, arguments, origin class of the arguments\n")
 	b.WriteString("    (\"lit\", \"resolved\" = flows from makePath/makeRelPath, \"forward\", or \"unresolved:<why>\") -/\n")
 	b.WriteString("def callSites : List (String × String × String × String × String) := [\n")
@@ -803,6 +828,7 @@ func genCaco3Paths(repo string, fs facts) (string, error) {
 	fs["caco3_listall_exclusions"] = map[string][]string{"names": names, "suffixes": suffixes, "dirs": dirs}
 	fs["caco3_dir_ignore_shape"] = shape
 	fs["caco3_include_shape"] = inclShape
+	fs["caco3_target_resolver"] = targetResolver(p)
 	fs["caco3_recursive_select_test"] = recursiveSelectTest(p)
 	return b.String(), nil
 }
